@@ -54,7 +54,7 @@ def script(graph=0):
     return _SCRIPT[graph % 2]
 
 
-OPS = ["setup", "iterate", "iterate_n", "run", "sample", "finalize"]
+OPS = ["setup", "iterate", "iterate_n", "run", "sample", "finalize", "iterate_n0"]
 
 
 def completion_refers_to_current_setup(life, o0, o1, o2, o3, o4):
@@ -75,6 +75,8 @@ def completion_refers_to_current_setup(life, o0, o1, o2, o3, o4):
             e.iterate()
         elif op == "iterate_n":
             e.iterate_n(2)
+        elif op == "iterate_n0":
+            e.iterate_n(0)
         elif op == "run":
             e.run(1)
         elif op == "sample":
@@ -89,13 +91,13 @@ def completion_refers_to_current_setup(life, o0, o1, o2, o3, o4):
 
 
 def run(rec):
-    rec.assume("LibRDEngine is driven as a state machine against a reference stand-in for the CDLL (finishes after `life` iterations); ALL sequences of 4 wrapper calls (+ a final sample) over {setup, iterate, iterate_n, run, sample, finalize+setup} are enumerated exhaustively")
+    rec.assume("LibRDEngine is driven as a state machine against a reference stand-in for the CDLL (finishes after `life` iterations); ALL sequences of 4 wrapper calls (+ a final sample) over {setup, iterate, iterate_n(2), iterate_n(0), run, sample, finalize+setup} are enumerated exhaustively")
     rec.encoded("LibRDEngine.setup/iterate/iterate_n/run/sample/is_complete/finalize")
     text = HARNESS + '''
 
 def h_is_complete(life: int, o0: int, o1: int, o2: int, o3: int) -> bool:
     """
-    pre: 1 <= life <= 3 and 0 <= o0 <= 5 and 0 <= o1 <= 5 and 0 <= o2 <= 5 and 0 <= o3 <= 5
+    pre: 1 <= life <= 3 and 0 <= o0 <= 6 and 0 <= o1 <= 6 and 0 <= o2 <= 6 and 0 <= o3 <= 6
     post: _
     """
     return completion_refers_to_current_setup(life, o0, o1, o2, o3, 4)
